@@ -43,7 +43,12 @@ def call (φ : Faults) (c : Ctx) (site : String) : Res Ctx :=
   let c' := { c with calls := c.calls ++ [(site, k)] }
   if φ site k then .err ("fault:" ++ site) else .ok c'
 
+/-- Bank `SendCoins` with the fiat-tokenfactory send restriction: the minting denom does not move while
+the token is paused, nor from or to a blacklisted address. -/
 def send (c : Ctx) (src dst : Addr) (d : String) (amt : Nat) (tag : String) : Res Ctx :=
+  if d == c.w.ext.mintingDenom && amt != 0 && (c.w.ext.ftfPaused || c.w.ext.blacklisted src || c.w.ext.blacklisted dst) then
+    .err (tag ++ ":ftf-send-restriction")
+  else
   match c.w.bank.send src dst d amt with
   | none => .err tag
   | some b => .ok { c with w := { c.w with bank := b }, moves := c.moves ++ [.xfer src dst d amt] }
